@@ -204,6 +204,32 @@ func genReconPair(r *rand.Rand, equal bool) (*reconSide, *reconSide) {
 	return I, T
 }
 
+// ribViaGet streams every instance of r as GetResponses (as Server.Get does) and rebuilds a RIB
+// from them with rib.FromGetResponses.
+func ribViaGet(r *rib.RIB, dflt string) (*rib.RIB, error) {
+	resps := []*spb.GetResponse{}
+	for _, ni := range r.KnownNetworkInstances() {
+		niR, ok := r.NetworkInstanceRIB(ni)
+		if !ok {
+			continue
+		}
+		msgCh := make(chan *spb.GetResponse)
+		stopCh := make(chan struct{})
+		errCh := make(chan error, 1)
+		go func() {
+			errCh <- niR.GetRIB(map[spb.AFTType]bool{spb.AFTType_ALL: true}, msgCh, stopCh)
+			close(msgCh)
+		}()
+		for m := range msgCh {
+			resps = append(resps, m)
+		}
+		if err := <-errCh; err != nil {
+			return nil, err
+		}
+	}
+	return rib.FromGetResponses(dflt, resps, rib.DisableRIBCheckFn())
+}
+
 func reconCase(seed uint64, idx int) *CaseSpec {
 	name := fmt.Sprintf("recon/%d/%d", seed, idx)
 	run := func(keep []int) (*Trace, error) {
@@ -231,6 +257,21 @@ func reconCase(seed uint64, idx int) *CaseSpec {
 		t.Add("rc.new %d %s %s %s", base, S(sT.nis[0]), LS(sI.nis), LS(sT.nis))
 		t.Add("rc.I %s", li)
 		t.Add("rc.T %s", lt)
+		// the path a remote target takes: contents -> GetResponses -> rib.FromGetResponses; it must
+		// give back the same contents (instances without entries do not appear in a Get)
+		if back, err := ribViaGet(T, sT.nis[0]); err != nil {
+			t.Add("rc.roundtrip 0 %s", S(err.Error()))
+		} else {
+			lb, _, err := entsLine(back)
+			if err != nil {
+				return t, err
+			}
+			same := "1"
+			if lb != lt {
+				same = "0"
+			}
+			t.Add("rc.roundtrip %s %s", same, S(""))
+		}
 		var id atomic.Uint64
 		id.Store(base)
 		rec := reconciler.New(reconciler.NewLocalRIB(I), reconciler.NewLocalRIB(T))
@@ -300,7 +341,7 @@ func init() {
 			}
 			return 300
 		},
-		Required: []string{"rc.add", "rc.replace", "rc.delete", "rc.equal", "rc.targetonly-ni", "rc.xni", "rc.converged"},
+		Required: []string{"rc.add", "rc.replace", "rc.delete", "rc.equal", "rc.targetonly-ni", "rc.xni", "rc.converged", "rc.roundtrip"},
 		Atomic:   true,
 	}
 	props["C15"] = &PropSpec{Mode: "recon", Diffs: []string{"rc."}, Monitors: []string{"c15"}}
